@@ -228,7 +228,15 @@ func (w *world) queryAll(ctx context.Context) map[string]string {
 	return outm
 }
 
+// expectedView is what a reader sees; a soft-deleted document ("D" in the bookkeeping) reads as absent
 func (w *world) expectedView(ts *txState, label string) string {
+	if v := w.rawView(ts, label); v != "D" {
+		return v
+	}
+	return "-"
+}
+
+func (w *world) rawView(ts *txState, label string) string {
 	if ts == nil {
 		if v, ok := w.committed[label]; ok {
 			return v
@@ -329,7 +337,8 @@ func (w *world) exec(op string) {
 			}
 		}
 		for l, id := range w.docIDs {
-			want := w.expectedView(ts, l) != "-"
+			// soft-deleted documents keep their (marked) primary key and are listed
+			want := w.rawView(ts, l) != "-"
 			if got[id] != want {
 				w.out.Oracle(w.out.Lines, fmt.Sprintf("[snapshot-violated] case %d: GetAllDocIDs inside transaction %s lists document %s: %v, the transaction's view has it: %v", w.caseID, t[1], l, got[id], want))
 			}
@@ -387,6 +396,94 @@ func (w *world) exec(op string) {
 			w.out.Emit(fmt.Sprintf("set 9 %s %s", label, age), "ok")
 			w.out.Emit("commit 9 ok", "ok")
 		}
+	case "setf", "delf":
+		// setf <txn> <bound> <age>: UpdateWithFilter(age < bound, age := <age>); delf <txn> <bound>: DeleteWithFilter(age < bound).
+		// The filter has to select by the transaction's own view (its snapshot plus its own writes).
+		id := t[1]
+		ctx, ts := w.cctx(id)
+		if ctx == nil {
+			return
+		}
+		if ts == nil {
+			// without a transaction the call runs in its own one: the model sees begin / the call / commit
+			w.out.Emit("begin 9", "ok")
+			op = strings.Join(append([]string{t[0], "9"}, t[2:]...), " ")
+		}
+		bound, _ := strconv.Atoi(t[2])
+		var want []string
+		for l := range w.docIDs {
+			if v := w.expectedView(ts, l); v != "-" {
+				if a, _ := strconv.Atoi(v); a < bound {
+					want = append(want, l)
+				}
+			}
+		}
+		sort.Strings(want)
+		filter := fmt.Sprintf(`{age: {_lt: %d}}`, bound)
+		var ids []string
+		var err error
+		if t[0] == "setf" {
+			var r *client.UpdateResult
+			r, err = w.col.UpdateWithFilter(ctx, filter, fmt.Sprintf(`{"age": %s}`, t[3]))
+			if err == nil {
+				ids = r.DocIDs
+			}
+		} else {
+			var r *client.DeleteResult
+			r, err = w.col.DeleteWithFilter(ctx, filter)
+			if err == nil {
+				ids = r.DocIDs
+			}
+		}
+		var got []string
+		byID := map[string]string{}
+		for l, d := range w.docIDs {
+			byID[d] = l
+		}
+		for _, d := range ids {
+			got = append(got, byID[d])
+		}
+		sort.Strings(got)
+		res := strings.Join(got, ",")
+		if res == "" {
+			res = "-"
+		}
+		if err != nil {
+			res = "err:" + strings.ReplaceAll(err.Error(), " ", "_")
+		}
+		w.out.Emit(op, res)
+		w.out.Count("api-" + t[0])
+		wantS := strings.Join(want, ",")
+		if wantS == "" {
+			wantS = "-"
+		}
+		if res != wantS {
+			w.out.Oracle(w.out.Lines-1, fmt.Sprintf("[snapshot-violated] case %d: %s inside transaction %s selected %s; the documents with age < %d in the transaction's view (its snapshot plus its own writes) are %s", w.caseID, t[0], id, res, bound, wantS))
+		}
+		if err == nil {
+			nv, rb := "D", "-"
+			if t[0] == "setf" {
+				nv, rb = t[3], t[3]
+			}
+			for _, l := range want {
+				if ts != nil {
+					ts.writes[l] = nv
+					ts.wrote[l] = true
+				} else {
+					w.committed[l] = nv
+				}
+			}
+			// what the caller now reads back
+			for _, l := range want {
+				if g := w.readDoc(ctx, l); g != rb {
+					w.out.Oracle(w.out.Lines-1, fmt.Sprintf("[snapshot-violated] case %d: after %s (transaction %s) document %s reads as %s, expected %s", w.caseID, op, id, l, g, rb))
+				}
+			}
+		}
+		if ts == nil {
+			w.out.Emit("commit 9 ok", "ok")
+		}
+		w.checkCommittedUntouched(op)
 	case "commit":
 		ts := w.txs[t[1]]
 		if ts == nil {
@@ -431,6 +528,13 @@ func (w *world) exec(op string) {
 	}
 }
 
+func boolInt(b bool) int {
+	if b {
+		return 1
+	}
+	return 0
+}
+
 func genAPI(r *vc.Rng, tier string) []string {
 	var ops []string
 	n := 14 + r.Intn(16)
@@ -445,7 +549,13 @@ func genAPI(r *vc.Rng, tier string) []string {
 	for i := 0; i < n; i++ {
 		id := 1 + r.Intn(3)
 		d := 1 + r.Intn(3)
-		switch x := r.Intn(14); {
+		switch x := r.Intn(17); {
+		case x == 14:
+			ops = append(ops, fmt.Sprintf("setf %d %d %d", id*boolInt(live[id]), 1+r.Intn(99), 1+r.Intn(99)))
+		case x == 15:
+			ops = append(ops, fmt.Sprintf("delf %d %d", id*boolInt(live[id]), 1+r.Intn(60)))
+		case x == 16:
+			ops = append(ops, fmt.Sprintf("setf 0 %d %d", 1+r.Intn(99), 1+r.Intn(99)))
 		case !live[id] || x == 0:
 			ops = append(ops, fmt.Sprintf("begin %d", id))
 			live[id] = true
